@@ -87,7 +87,11 @@ def server_part(ctx):
     for k in range(ntrees):
         desc, files, dirs, canary = gen_tree(rng, 1000 + k)
         routes = rng.sample(ROUTES[:3], rng.randint(0, 3)) + ['/*']
+        # every second tree is served with the response cache on, and every target is then asked twice: the second
+        # answer may come from the cache and must be the same (the model has no cache: C16_cache_transparent)
+        cached = k % 2 == 1
         conf = '\n'.join(['server {', '  address "127.0.0.1"', '  port 8080', '  threads 2', '  log {', '    level "error"', '    console false', '  }'] +
+                         (['  cache {', '    size 4M', '    time 600', '  }'] if cached else []) +
                          sum([['  route %s {' % r, '    directory "@FIX@/www"', '  }'] for r in routes], []) + ['}']) + '\n'
         fixtures = ['%s:%s' % (hx('www/' + f), hx(c)) for f, c in files.items()] + ['%s:d' % hx('www/' + d) for d in dirs] + \
                    ['%s:d' % hx('www'), '%s:%s' % (hx('secret.txt'), hx(canary)), '%s:%s' % (hx('wwwx/other.txt'), hx(canary))]
@@ -115,6 +119,9 @@ def server_part(ctx):
             targets.append('/static' + '/' * nsl + '@BASE@/wwwx/other.txt')
         # what a request line can carry: no space, control character, '?' or '#'
         targets = [t for t in dict.fromkeys(targets) if not re.search(r'[\x00-\x20?#\x7f]', t)]
+        if cached:
+            targets = targets + targets
+            ctx.count('server-e2e trees with the cache on')
         lines.append('srv %s %s %s' % (hx(conf.replace('@BASE@', '@FIX@')), ','.join(fixtures),
                                        ','.join('%s:%s:-:-:ct' % (hx('x'), hx(t.replace('@BASE@', '@FIX@'))) for t in targets)))
         meta.append((desc, files, routes, targets, canary))
